@@ -1,6 +1,56 @@
 (* Property C10 — path addressing is exact.  Only statements and [exact]; proofs live in Proofs/KeyPath*.v, Proofs/Hier*.v. *)
-From PG Require Import Common.Tactics Model.KeyPath Model.Hier.
+From PG Require Import Common.Tactics Model.KeyPath Model.Hier
+  Proofs.KeyPathParse Proofs.KeyPathArith Proofs.KeyPathOrder.
 
-Theorem C10_sub_root : forall p, path_sub p [] = inr p.
-Proof. intros; destruct p; reflexivity. Qed.
-Print Assumptions C10_sub_root.
+(* 1. A key path of admissible keys (integers; non-empty strings with balanced brackets) prints to a string
+      that parses back to the same keys.  Any number of keys, any lengths. *)
+Theorem C10_parse_format : forall ks, Forall key_ok ks -> parse (format ks) = POk ks.
+Proof. exact parse_format. Qed.
+Print Assumptions C10_parse_format.
+
+(* 2. Hence printing is injective on admissible key lists: two different paths never print alike. *)
+Theorem C10_format_injective : forall ks ks', Forall key_ok ks -> Forall key_ok ks' -> format ks = format ks' -> ks = ks'.
+Proof. exact format_injective. Qed.
+Print Assumptions C10_format_injective.
+
+(* 3. Path arithmetic agrees with the key sequences. *)
+Theorem C10_arith : forall p q r k,
+  path_sub (path_add p q) p = inr q /\
+  path_sub p p = inr [] /\
+  is_relative_to (path_add p q) p = true /\
+  path_parent (p ++ [k]) = Some p /\ path_key (p ++ [k]) = Some k /\
+  path_parent [] = None /\
+  (path_sub p q = inr r <-> p = q ++ r) /\
+  (is_relative_to p q = true <-> exists r', p = q ++ r') /\
+  ((exists r', path_sub p q = inr r') <-> is_relative_to p q = true) /\
+  (path_sub p q = inl AValueAncestor <-> exists k' r', q = p ++ k' :: r').
+Proof.
+  intros. repeat split; auto using sub_add, sub_self, relative_add, parent_snoc, key_snoc;
+    try apply sub_spec; try apply relative_spec; try apply sub_defined_iff; try apply sub_ancestor.
+Qed.
+Print Assumptions C10_arith.
+
+(* 4. Ordering: a strict total order on key lists ... *)
+Theorem C10_order_strict_total : forall p q r,
+  path_lt p p = false /\
+  (path_lt p q = true -> path_lt q r = true -> path_lt p r = true) /\
+  (p <> q -> path_lt p q = true \/ path_lt q p = true) /\
+  (path_lt p q = true -> path_lt q p = false) /\
+  path_gt p q = path_lt q p /\ path_ge p q = path_le q p /\
+  path_le p q = negb (path_lt q p) /\ path_le p q = (path_lt p q || path_eqb p q).
+Proof.
+  intros. pose proof (ops_consistent p q) as (A & B & C & D).
+  repeat split; auto using lt_irrefl, lt_total, lt_asym. apply lt_trans.
+Qed.
+Print Assumptions C10_order_strict_total.
+
+(*    ... that agrees with the key sequences: a proper prefix first, else the first differing key decides,
+      ints numerically, strings by code point, an int before a string. *)
+Theorem C10_order_consistent : forall p a b x y,
+  path_lt p (p ++ a :: x) = true /\
+  (a <> b -> path_lt (p ++ a :: x) (p ++ b :: y) = match key_cmp a b with Lt => true | _ => false end) /\
+  (forall i j, key_cmp (KInt i) (KInt j) = Z.compare i j) /\
+  (forall s t, key_cmp (KStr s) (KStr t) = str_cmp s t) /\
+  (forall i s, key_cmp (KInt i) (KStr s) = Lt).
+Proof. intros. repeat split. apply lt_prefix. apply lt_first_diff. Qed.
+Print Assumptions C10_order_consistent.
